@@ -209,15 +209,16 @@ theorem handleSuccess_sel (a : Agent) (now : Nat) (m : Msg) (l r : Cand) (src : 
 /-- the state in which the pairs of a newly discovered peer-reflexive candidate `c'` are formed -/
 def prflxBase (a : Agent) (c' : Cand) : Agent := { a with nextUid := a.nextUid + 1, remotes := a.remotes ++ [c'] }
 
-theorem addRemoteCandidate_prflx_eq (a : Agent) (c : Cand) (hty : c.ty = 3)
+theorem addRemoteCandidate_prflx_eq (a : Agent) (c : Cand) (hty : c.ty = 3) (htt : c.tt = 0)
     (hb : a.cfg.blockedIPs.contains (ipOf c.addr) = false)
     (hn : (a.remotes.filter (·.net == c.net)).find? (·.equal c) = none) :
     a.addRemoteCandidate c =
       (((a.locals.filter (·.net == c.net)).foldl (pairStep { c with uid := a.nextUid })
           (prflxBase a { c with uid := a.nextUid })).requestCheck, [], some { c with uid := a.nextUid }) := by
-  obtain ⟨uid, ty, net, addr, prio, comp, rel, lr, ls, form⟩ := c
-  simp only at hty
+  obtain ⟨uid, ty, net, addr, prio, comp, rel, lr, ls, form, tt⟩ := c
+  simp only at hty htt
   subst hty
+  subst htt
   unfold Agent.addRemoteCandidate
   split
   · rename_i h; rw [hb] at h; cases h
@@ -226,6 +227,7 @@ theorem addRemoteCandidate_prflx_eq (a : Agent) (c : Cand) (hty : c.ty = 3)
   simp only [beq_self_eq_true, if_true, List.foldl_nil, List.any_nil, Bool.not_false]
   have hft : ∀ l : List Cand, l.filter (fun _ => true) = l := by intro l; simp
   rw [hft]
+  simp only [show ((0 : Nat) != 2) = true from rfl, Bool.and_true]
   rfl
 
 theorem addPair_idsOK (a : Agent) (l r : Cand) (h : IdsOK a) : IdsOK (a.addPair l r).1 := by
@@ -298,10 +300,10 @@ theorem hiDisc_new (a : Agent) (l : Cand) (src : Nat) (m : Msg) (hf : a.findRemo
     rw [List.find?_eq_none] at hf
     apply hf x hxr
     simp only [Cand.equal, Cand.taEqual, Bool.and_eq_true] at hxe
-    have h1 := hxe.1.1
+    have h1 := hxe.1.1.1
     simp only [Bool.and_eq_true]
     exact h1
-  have heq := addRemoteCandidate_prflx_eq a (prflxCand l src m) rfl hb hn
+  have heq := addRemoteCandidate_prflx_eq a (prflxCand l src m) rfl rfl hb hn
   unfold hiDisc; rw [hf]
   exact heq
 
